@@ -13,6 +13,7 @@
 //       R                   (root only) resume every suspension of mode 3 that is parked at this moment
 //       S3:<cbw>:<d>        (only below a G unit) the suspend point is parked until the root executes R -- i.e. until the root's own earlier
 //                           suspensions have continued -- or, once the root unit is over, until a foreign thread serves it
+//       Y<u>                wait inside this_task_arena::isolate until unit u has finished (skipped if u has not started)
 //       X<u>                (inside a task) second_arena.execute(unit u inline): unit u runs directly in the execute functor
 //   cfg twin=<u|0>         a second external thread runs unit u through arena.execute at the same time as the root
 // Suspension happens inside tasks (task_group tasks, parallel_for bodies) and DIRECTLY in an execute functor (root unit, twin unit, X units):
@@ -36,6 +37,7 @@ namespace tbb { namespace detail { namespace r1 { class governor; } } }
 #define C20_WB 1
 #endif
 #endif
+#include <map>
 #include "../engine/drv/drv.h"
 
 const char* H_PROP = "C20";
@@ -79,6 +81,21 @@ static void gen_unit(GenSt& g, int uid, int depth, bool body, int mult, bool dir
     for (auto& t : todo) { if (t.second == -2) { gen_unit(g, t.first, 1, false, mult, false, true); continue; } if (t.second == -1) gen_unit(g, t.first, depth + 1, false, mult, true); else gen_unit(g, t.first, depth + 1, t.second != 0, t.second ? mult * t.second : mult, false, parked_ok); }
 }
 std::string h_gen(Src& s) {
+    if (drv_flag("--isowait")) {
+        // NOT REGISTERED IN ANY PLAN (see DESIGN.md s.11.21): on the unchanged tree this shape ends in DEADLOCK verdicts that could not be attributed in time.
+        // directed: a task suspends, its thread goes on with a sibling that waits INSIDE this_task_arena::isolate until the suspended unit has finished.
+        // With one slot nobody but that thread can take the resume task, and it sits in an isolated wait: resumption must not depend on the isolation tag.
+        int par = s.range(1, 2), mc = s.range(1, 2), res = mc == 2 ? (int)s.choose(2) : (int)s.choose(2); bool filler = s.coin(2);
+        int m = s.coin(3) ? 0 : 2;
+        std::string o = "cfg par=" + std::to_string(par) + " arena=" + std::to_string(mc) + ":" + std::to_string(res) + " ext=" + std::to_string(1 + (int)s.choose(2)) + " twin=0\n";
+        o += std::string("u 0 N1,2") + (filler ? ",3" : "") + "\n";
+        o += "u 1 W" + std::to_string(s.range(0, 3)) + " S" + std::to_string(m) + ":" + std::to_string(s.range(0, 5)) + ":" + std::to_string(s.range(0, 12));
+        if (s.coin(3)) o += " S2:" + std::to_string(s.range(0, 3)) + ":" + std::to_string(s.range(0, 8));
+        o += " W" + std::to_string(s.range(0, 2)) + "\n";
+        o += "u 2 W" + std::to_string(s.range(0, 8)) + " Y1 W" + std::to_string(s.range(0, 2)) + "\n";
+        if (filler) o += "u 3 W" + std::to_string(s.range(0, 5)) + "\n";
+        return o;
+    }
     int par = 1 + (int)s.weighted({ 4, 2, 3, 1 }); par = par == 1 ? 2 : par == 2 ? 1 : par;   // 0 -> par 2 (simplest interesting), then 1, 3, 4
     int mc = 1 + (int)s.weighted({ 4, 2, 3 }); mc = mc == 1 ? 2 : mc == 2 ? 1 : mc;          // 0 -> 2 slots, then 1, 3
     int res = s.choose(4) == 3 ? 0 : 1;
@@ -191,6 +208,7 @@ static void on_continue(int sid) {
     s2.inside = false; s2.c_exit = vs_now();
 }
 
+struct IsoHold { tbb::task_handle h; }; static std::map<int, std::vector<IsoHold*>> iso_holds; static long n_iso_waits = 0, n_iso_skipped = 0;
 static void run_unit(int uid, int act, bool direct = false);   // direct: the unit runs in a task_arena::execute functor on the thread that called execute (not inside a task)
 static int new_act(int u) { ACT.push_back(Act{ u, 0, 0 }); return (int)ACT.size() - 1; }
 static void check_acts(int from, int to, const char* how) {
@@ -232,6 +250,21 @@ static void run_unit(int uid, int act, bool direct) {
             for (size_t i = 0; i < waiting.size(); i++) if (waiting[i].frame == (uintptr_t)&anchor) { waiting.erase(waiting.begin() + (long)i); break; }
             check_acts(from, from + (int)op.subs.size(), "task_group::wait");
             break; }
+        case 'Y': {
+            // wait, inside this_task_arena::isolate, until unit op.a has finished: the wait of a task_group is held open by a deferred task_handle that the
+            // end of that unit drops.  Skipped when the unit has not started (in isolation nobody might be allowed to run it: a user-level deadlock).
+            int target = -1; for (int i = (int)ACT.size() - 1; i >= 0; i--) if (ACT[i].unit == op.a) { target = i; break; }
+            if (target < 0 || ACT[target].started == 0) { n_iso_skipped++; break; }
+            if (ACT[target].finished) break;
+            n_iso_waits++;
+            tbb::this_task_arena::isolate([target] {
+                tbb::task_group tg; IsoHold h; h.h = tg.defer([] {}); iso_holds[target].push_back(&h);
+                int anchor = 0; uintptr_t k = stack_key(&anchor); waiting.push_back({ k, (uintptr_t)&anchor });
+                tg.wait();
+                for (size_t i = 0; i < waiting.size(); i++) if (waiting[i].frame == (uintptr_t)&anchor) { waiting.erase(waiting.begin() + (long)i); break; }
+                if (ACT[target].finished != 1) vs_violation("WAIT-TOO-EARLY", "the isolated wait returned although the unit it waits for has finished %d times", ACT[target].finished);
+            });
+            break; }
         case 'G': { int u = op.a, a = new_act(u); SG->run([u, a] { run_unit(u, a, false); }); break; }
         case 'R': { while (!L3.empty()) { int sid = L3.front(); L3.pop_front(); n_released_by_root++; vs_work(SU[sid].d); do_resume(sid); } break; }
         case 'X': {
@@ -251,6 +284,7 @@ static void run_unit(int uid, int act, bool direct) {
         }
     }
     ACT[act].finished++;
+    { auto it = iso_holds.find(act); if (it != iso_holds.end()) { std::vector<IsoHold*> hs = it->second; iso_holds.erase(it); for (IsoHold* h : hs) h->h = tbb::task_handle(); } }
 }
 static void ext_thread(void*) {
     for (;;) {
@@ -286,7 +320,7 @@ void h_run(Case& c) {
                 if (op.c == 'W') op.a = atoi(p);
                 else if (op.c == 'S') sscanf(p, "%d:%d:%d", &op.a, &op.b, &op.d);
                 else if (op.c == 'F') sscanf(p, "%d:%d", &op.a, &op.b);
-                else if (op.c == 'X' || op.c == 'G') op.a = atoi(p);
+                else if (op.c == 'X' || op.c == 'G' || op.c == 'Y') op.a = atoi(p);
                 else if (op.c == 'R') {}
                 else if (op.c == 'N') { for (const char* q = p; *q;) { op.subs.push_back(atoi(q)); while (*q && *q != ',') q++; if (*q == ',') q++; } }
                 else vs_inconclusive("BAD-CASE", "unknown op %s", w[i].c_str());
@@ -339,7 +373,7 @@ void h_run(Case& c) {
     vs_stat_add("n_lvl_outer", n_lvl_outer); vs_stat_add("n_lvl_nested", n_lvl_nested); vs_stat_add("n_on_coroutine", n_on_coroutine);
     vs_stat_add("n_on_master", n_on_master); vs_stat_add("n_on_worker", n_on_worker); vs_stat_add("n_wb_bad", n_wb_bad);
     if (n_early[0]) vs_stat_flag("early_resume_in_callback"); if (n_early[1]) vs_stat_flag("early_resume_by_task"); if (n_early[2]) vs_stat_flag("early_resume_by_foreign_thread");
-    if (n_late[1] + n_late[2]) vs_stat_flag("resume_after_switch");
+    if (n_late[1] + n_late[2]) vs_stat_flag("resume_after_switch"); if (n_iso_waits) vs_stat_flag("isolated_wait_for_a_suspended_unit"); if (n_iso_skipped) vs_stat_flag("isolated_wait_skipped_unit_not_started");
     if (n_migrated) vs_stat_flag("continued_on_other_thread"); if (n_otherwork) vs_stat_flag("suspender_ran_other_work");
     vs_stat_add("n_parked", n_parked); vs_stat_add("n_released_by_root", n_released_by_root); if (n_released_by_root) vs_stat_flag("suspension_released_by_code_after_another_suspension");
     vs_stat_add("n_direct_susp", n_direct_susp); vs_stat_add("n_direct_but_delegated", n_direct_but_delegated); if (n_direct_susp) vs_stat_flag("suspend_directly_in_execute_functor"); if (n_direct_resumed_elsewhere) vs_stat_flag("direct_suspension_resumed_by_other_thread"); if (twin) vs_stat_flag("second_external_thread_in_arena");
